@@ -135,13 +135,13 @@ func (g *G) pattern(depth int, c *pctx) interface{} {
 		return g.scalar()
 	case k < 70:
 		// object
-		if !c.plainOnly && g.chance(0.12) || c.plainOnly && g.chance(0.08) {
+		if !c.plainOnly && g.chance(0.18) || c.plainOnly && g.chance(0.1) {
 			// property variable as the sole key
 			kv := g.pick(propKeyVars)
 			if c.linear && c.vars[kv] {
 				kv = "?"
 			}
-			if g.chance(0.15) {
+			if g.chance(0.25) {
 				kv = "?"
 			}
 			c.vars[kv] = true
@@ -276,6 +276,28 @@ func (g *G) instantiate(p interface{}, sigma map[string]interface{}, c *pctx, ex
 					}
 				}
 				m[fk] = g.instantiate(pv, sigma, c, extras)
+				if extras {
+					// near-miss siblings: other properties whose values almost match
+					// (bind some variables, then fail), to provoke leaks between the
+					// branches of the search
+					for n := g.intn(3); n > 0; n-- {
+						sk := g.pick(vocabKeys)
+						if _, have := m[sk]; have {
+							continue
+						}
+						sig2 := map[string]interface{}{}
+						if g.chance(0.5) {
+							for kk, vv := range sigma {
+								sig2[kk] = vv
+							}
+						}
+						sib := g.instantiate(pv, sig2, c, false)
+						if g.chance(0.7) {
+							sib = g.corrupt(sib)
+						}
+						m[sk] = sib
+					}
+				}
 				continue
 			}
 			if s, is := pv.(string); is && len(s) > 1 && s[:2] == "??" && g.chance(0.5) {
@@ -302,6 +324,25 @@ func (g *G) instantiate(p interface{}, sigma map[string]interface{}, c *pctx, ex
 		}
 		if extras {
 			for n := g.intn(3); n > 0; n-- {
+				if len(v) > 0 && g.chance(0.4) {
+					// a near miss of one of the pattern's structured elements
+					x := v[g.intn(len(v))]
+					switch x.(type) {
+					case map[string]interface{}, []interface{}:
+						sig2 := map[string]interface{}{}
+						if g.chance(0.5) {
+							for kk, vv := range sigma {
+								sig2[kk] = vv
+							}
+						}
+						nm := g.instantiate(x, sig2, c, false)
+						if g.chance(0.7) {
+							nm = g.corrupt(nm)
+						}
+						a = append(a, nm)
+						continue
+					}
+				}
 				a = append(a, g.value(1))
 			}
 		}
